@@ -483,7 +483,7 @@ class Interp:
                     return ClassRef(m2.classes[nm])
                 if nm in m2.functions:
                     return BoundMethod(None, m2.functions[nm])
-        if e.id in ("struct", "time", "asyncio", "logging", "re", "math"):
+        if e.id in ("struct", "time", "asyncio", "logging", "re", "math", "threading", "socket"):
             return ModuleRef(e.id)
         if mod is not None and e.id in mod.imports:
             return Opaque(e.id)  # imported from outside the package (datetime, ...)
@@ -1143,7 +1143,7 @@ class Builtin:
             return SymBytes.pack(fmt, list(vals))
         if n == "struct.calcsize":
             return _struct.calcsize(args[0])
-        if n.startswith("time."):
+        if n.startswith("time.") or n.startswith("threading.") or n.startswith("socket."):
             return Opaque(n)
         raise Undecided(f"builtin {n} not modelled")
 
